@@ -35,6 +35,9 @@ func c05Drivers() []concParams {
 func runConcChecks(c *explore.Ctx, id string, drivers []concParams, bound int, perTask int) {
 	pool := explore.NewPool(0, "worker", id)
 	defer pool.Close()
+	// happens-before state caching (vsched/hb.go); VERIF_HB=0 runs the plain search
+	explore.UseHB = os.Getenv("VERIF_HB") != "0"
+	defer func() { explore.UseHB = false }()
 	per := map[string]any{}
 	exh := true
 	hists := 0
@@ -68,6 +71,22 @@ func runConcChecks(c *explore.Ctx, id string, drivers []concParams, bound int, p
 		if c.Tier == "thorough" && d.TB > 0 {
 			bound = d.TB
 		}
+		if explore.UseHB && bound >= 2 && !c.OutOfTime() {
+			// cross-check of the happens-before state caching on this very driver: the plain
+			// search and the caching search one bound below the target (at most 2) must see the
+			// same set of observable histories; otherwise caching is switched off for this run
+			cb := min(bound-1, 2)
+			explore.UseHB = false
+			ref := explore.RunDFS(c, pool, "conc", d, cb, perTask)
+			explore.UseHB = true
+			got := explore.RunDFS(c, pool, "conc", d, cb, perTask)
+			c.Add("hb_crosscheck_runs", 1)
+			if !ref.Capped && !got.Capped && (!sameSet(ref.Hists, got.Hists) || len(ref.Outcomes) != len(got.Outcomes)) {
+				fmt.Printf("HB-CROSSCHECK-MISMATCH driver=%s bound=%d plain=%d histories caching=%d: state caching switched off\n", d.Name, cb, len(ref.Hists), len(got.Hists))
+				c.Add("hb_crosscheck_mismatch", 1)
+				explore.UseHB = false
+			}
+		}
 		for b := 0; b <= bound; b++ {
 			if c.OutOfTime() {
 				break
@@ -75,7 +94,7 @@ func runConcChecks(c *explore.Ctx, id string, drivers []concParams, bound int, p
 			st := explore.RunDFS(c, pool, "conc", d, b, perTask)
 			last = st
 			if os.Getenv("VERIF_VERBOSE") != "" {
-				fmt.Printf("    %s bound=%d execs=%d hists=%d capped=%v maxpoints=%d subtrees=%d t=%.1fs\n", d.Name, b, st.Execs, len(st.Hists), st.Capped, st.MaxPoints, st.Subtrees, c.Elapsed().Seconds())
+				fmt.Printf("    %s bound=%d execs=%d pruned=%d traces=%d hists=%d capped=%v maxpoints=%d subtrees=%d t=%.1fs\n", d.Name, b, st.Execs, st.Pruned, len(st.HBTraces), len(st.Hists), st.Capped, st.MaxPoints, st.Subtrees, c.Elapsed().Seconds())
 			}
 			if st.Nondet != "" {
 				fmt.Printf("NONDETERMINISM in %s: %s\n", d.Name, st.Nondet)
@@ -112,8 +131,9 @@ func runConcChecks(c *explore.Ctx, id string, drivers []concParams, bound int, p
 			avg = last.SumPoints / last.Execs
 		}
 		per[d.Name] = map[string]any{"cfg": d.Cfg, "clients": d.Clients, "pre": d.Pre, "bound_completed": completed, "bound_target": bound, "executions_at_last_bound": last.Execs,
-			"distinct_histories": len(last.Hists), "distinct_outcomes": len(last.Outcomes), "max_choice_points": last.MaxPoints, "avg_choice_points": avg, "subtrees": last.Subtrees}
-		fmt.Printf("  %-24s bound %d/%d execs=%d hists=%d outcomes=%d maxpoints=%d\n", d.Name, completed, bound, last.Execs, len(last.Hists), len(last.Outcomes), last.MaxPoints)
+			"distinct_histories": len(last.Hists), "distinct_outcomes": len(last.Outcomes), "max_choice_points": last.MaxPoints, "avg_choice_points": avg, "subtrees": last.Subtrees,
+			"pruned_at_visited_state": last.Pruned, "distinct_hb_traces": len(last.HBTraces)}
+		fmt.Printf("  %-24s bound %d/%d execs=%d pruned=%d traces=%d hists=%d outcomes=%d maxpoints=%d\n", d.Name, completed, bound, last.Execs, last.Pruned, len(last.HBTraces), len(last.Hists), len(last.Outcomes), last.MaxPoints)
 		if len(c.Coverage) < 1000 {
 			c.Sample(map[string]any{"driver": d.Name, "clients": d.Clients, "outcomes": keysOf(last.Outcomes, 4)})
 		}
@@ -123,10 +143,23 @@ func runConcChecks(c *explore.Ctx, id string, drivers []concParams, bound int, p
 	c.SetExhaustive(exh)
 	c.Coverage["bound"] = bound
 	c.Coverage["worker_crashes"] = pool.Crashes
+	c.Coverage["hb_state_caching"] = explore.UseHB
 	if p := wherePools[id]; p != nil {
 		p.Close()
 		delete(wherePools, id)
 	}
+}
+
+func sameSet(a, b map[uint64]bool) bool {
+	if len(a) != len(b) {
+		return false
+	}
+	for k := range a {
+		if !b[k] {
+			return false
+		}
+	}
+	return true
 }
 
 func keysOf(m map[string]int, n int) []string {
